@@ -13,8 +13,8 @@ func init() {
 	registerProperty(&PropertyInfo{
 		ID:    "C08",
 		Title: "Search answers depend only on the logical documents, not the layout",
-		Rules: []string{"C08.R1", "C02.R2", "C08.R3", "C08.R4", "C08.R5", "C08.R6", "C08.R7", "C08.R8", "C09.R5", "C07.R2", "C06.R5", "C04.R2"},
-		Decides: "structural conditions of layout independence (narrow claim): builds are total, including the empty corpus - every constant-index access x[k] in package index is dominated by length facts (from ==, !=, <, <=, >, >= tests of len(x) and loop conditions) implying len(x) > k, with no possibly-shrinking operation in between; a backup copies every segment before the snapshot that names it (C02.R2 applied to Backup, no skip allowed); every registered segment plugin takes its five members from one package, the snapshot writer records each segment's own type and version and the loader selects the plugin by the RECORDED type and version; collection statistics are summed over every segment of the snapshot without a skip edge; multi-segment iterators globalise doc numbers (C07.R2) over offsets that are cumulative full sizes (C06.R5) and never mutate shared bitmaps (C04.R2).",
+		Rules: []string{"C08.R1", "C02.R2", "C08.R3", "C08.R4", "C08.R5", "C08.R6", "C08.R7", "C08.R8", "C09.R5", "C04.R5", "C07.R2", "C06.R5", "C04.R2"},
+		Decides: "structural conditions of layout independence (narrow claim): builds are total, including the empty corpus - every constant-index access x[k] in package index is dominated by length facts (from ==, !=, <, <=, >, >= tests of len(x) and loop conditions) implying len(x) > k, with no possibly-shrinking operation in between; a backup copies every segment before the snapshot that names it (C02.R2 applied to Backup, no skip allowed); every registered segment plugin takes its five members from one package, the snapshot writer records each segment's own type and version and the loader selects the plugin by the RECORDED type and version; collection statistics are summed over every segment of the snapshot without a skip edge; multi-segment iterators globalise doc numbers (C07.R2) over offsets that are cumulative full sizes (C06.R5) and never mutate shared bitmaps (C04.R2). a fixed-arity combination of list elements is used only when the list has exactly that many; the plugin that opens a persisted segment is the registry entry under its recorded version; doc values are read through the reader of the hit's own index.",
 		NotCovered: "equality of answers across build recipes; scores on merged segments (the segment library rewrites norms when it merges); MultiSearch merging.",
 	})
 	registerRule(&RuleInfo{ID: "C08.R1", Title: "constant-index accesses in package index are guarded by length facts", Floor: 15, Run: ruleC08R1,
